@@ -17,8 +17,8 @@ import (
 // resolved lazily: loads of scalars become ite-chains, anything else forks
 // over the feasible concrete indices.
 type symAddr struct {
-	elems []value
-	idx   *Term
+	elems  []value
+	idx    *Term
 	signed bool
 }
 
